@@ -110,6 +110,63 @@ def cases(tier, rng, schema, feats):
                 res.append((k, v))
         return res
 
+    # names that COLLIDE with a member name under a common 32-bit string hash (FNV-1a, FNV-1, djb2): a dispatch by hash instead of by
+    # string would take them for the member.  Found by meet-in-the-middle (each step of these hashes is invertible modulo 2^32).
+    def collisions(targets):
+        M = 0xFFFFFFFF
+        alpha = b"abcdefghijklmnopqrstuvwxyz"
+        out_ = {}
+        def mitm(step, unstep, basis):
+            import itertools as _it
+            fwd = {}
+            for pre in _it.product(alpha, repeat=4):
+                h = basis
+                for c in pre:
+                    h = step(h, c)
+                fwd.setdefault(h, bytes(pre))
+            for name in targets:
+                h0 = basis
+                for c in name.encode():
+                    h0 = step(h0, c)
+                found = 0
+                for suf in _it.product(alpha, repeat=3):
+                    h = h0
+                    for c in reversed(suf):
+                        h = unstep(h, c)
+                    if h in fwd:
+                        cand = (fwd[h] + bytes(suf)).decode()
+                        if cand != name:
+                            out_.setdefault(name, []).append(cand)
+                            found += 1
+                            if found >= 2:
+                                break
+        P = 16777619
+        Pinv = pow(P, -1, 2**32)
+        mitm(lambda h, c: ((h ^ c) * P) & M, lambda h, c: ((h * Pinv) & M) ^ c, 2166136261)          # FNV-1a
+        mitm(lambda h, c: ((h * P) & M) ^ c, lambda h, c: (((h ^ c) * Pinv) & M), 2166136261)          # FNV-1
+        i33 = pow(33, -1, 2**32)
+        mitm(lambda h, c: (h * 33 + c) & M, lambda h, c: ((h - c) * i33) & M, 5381)                    # djb2
+        return out_
+
+    opt_t = "ctap2::AuthenticatorOptions"
+    if opt_t in schema:
+        own_keys = [f["key"] for f in schema[opt_t]["fields"] if isinstance(f["key"], str)]
+        col = collisions(own_keys)
+        for name, cands in col.items():
+            for cnd in cands:
+                for other in own_keys:
+                    if other == name:
+                        continue
+                    for val in (False, 42):
+                        base_o = cbor.M([(other, True)])
+                        new_o = cbor.M([(other, True), (cnd, val)])
+                        for cmd, key in ((0x01, 7), (0x02, 5)):
+                            if cmd == 0x01:
+                                body = lambda o: cbor.M([(1, b"\x11" * 32), (2, cbor.M([("id", "example.com")])), (3, cbor.M([("id", b"\x01")])),
+                                                         (4, [cbor.M([("alg", -7), ("type", "public-key")])]), (7, o)])
+                            else:
+                                body = lambda o: cbor.M([(1, "example.com"), (2, b"\x22" * 32), (5, o)])
+                            pair("dec2", bytes([cmd]).hex(), body(base_o), body(new_o))
     for cmd, (variant, t) in REQUESTS.items():
         if cmd == 0x41:
             continue
